@@ -73,14 +73,52 @@ type hclock struct {
 	now    int
 	gate   chan struct{}
 	parked chan struct{}
+	rv     *rendezvous
 }
+
+func (c *hclock) meetAt(rv *rendezvous) { c.mu.Lock(); c.rv = rv; c.mu.Unlock() }
+
+// rendezvous parks a caller until a second one has arrived too, or a timeout passes.  The callers
+// arrive from inside the operation under test, between its check and its write: UpdateMode through
+// the Model API carries a resource.InterceptBefore option (passed on to the modes collection, it
+// runs after the model looked for another normal mode and before the mode is stored); every write
+// reads the clock (change time) at the same place, which parks AddMode, CreateMode and the servers.
+// Operations the model serialises never meet: the second one waits for the model lock, the first
+// one's wait times out.
+type rendezvous struct {
+	mu      sync.Mutex
+	n       int
+	both    chan struct{}
+	timeout time.Duration
+}
+
+func newRendezvous(timeout time.Duration) *rendezvous {
+	return &rendezvous{both: make(chan struct{}), timeout: timeout}
+}
+func (r *rendezvous) arrive() {
+	r.mu.Lock()
+	r.n++
+	if r.n == 2 {
+		close(r.both)
+	}
+	r.mu.Unlock()
+	select {
+	case <-r.both:
+	case <-time.After(r.timeout):
+	}
+}
+func (r *rendezvous) arrivals() int { r.mu.Lock(); defer r.mu.Unlock(); return r.n }
 
 func (c *hclock) Now() time.Time {
 	c.mu.Lock()
 	gate, parked := c.gate, c.parked
 	c.gate, c.parked = nil, nil // only the first reader of the clock is held up
 	t := concTime(c.now)
+	rv := c.rv
 	c.mu.Unlock()
+	if rv != nil {
+		rv.arrive()
+	}
 	if gate != nil {
 		close(parked)
 		<-gate
@@ -124,7 +162,7 @@ type idTable struct {
 
 func newIDTable() *idTable {
 	t := &idTable{abs: map[string]string{}, conc: map[string]string{}}
-	for _, id := range []string{"a", "b", "c", "d"} {
+	for _, id := range []string{"a", "b", "c", "d", "e"} {
 		t.abs[id], t.conc[id] = id, id
 	}
 	return t
@@ -218,6 +256,8 @@ type sut struct {
 	srv *electricpb.ModelServer
 	clk *hclock
 	ids *idTable
+	// extra write options for UpdateMode through the Model API (forced schedules)
+	updOpts []resource.WriteOption
 }
 
 func newSUT(seed int64) *sut {
@@ -364,9 +404,9 @@ func (s *sut) call(api string, op opT) (err error, rid string, got retA) {
 		if server {
 			ret, err = s.srv.UpdateMode(bg, &electricpb.UpdateModeRequest{Name: "dev", Mode: mode, UpdateMask: maskOf(op.Mask)})
 		} else if op.Mask == "nil" {
-			ret, err = s.m.UpdateMode(mode) // "to modify all fields, pass a nil mask"
+			ret, err = s.m.UpdateMode(mode, s.updOpts...) // "to modify all fields, pass a nil mask"
 		} else {
-			ret, err = s.m.UpdateMode(mode, resource.WithUpdateMask(maskOf(op.Mask)))
+			ret, err = s.m.UpdateMode(mode, append([]resource.WriteOption{resource.WithUpdateMask(maskOf(op.Mask))}, s.updOpts...)...)
 		}
 	case "Delete":
 		if server {
@@ -425,7 +465,23 @@ func runSeq() {
 	cases := hx.ReadCases[caseT](hx.Arg("-cases", "progs.ndjson"))
 	out := hx.NewOut(hx.Arg("-out", "obs.ndjson"))
 	defer out.Close()
-	for n, c := range cases {
+	// the replays are independent of each other: a few workers share them (lines carry prog/step)
+	workers := hx.ArgInt("-workers", 6)
+	var wg sync.WaitGroup
+	for w := 0; w < workers; w++ {
+		wg.Add(1)
+		go func() {
+			defer wg.Done()
+			for n := w; n < len(cases); n += workers {
+				replay(out, n, cases[n])
+			}
+		}()
+	}
+	wg.Wait()
+}
+
+func replay(out *hx.Out, n int, c caseT) {
+	{
 		for _, api := range []string{"model", "server"} {
 			s := newSUT(int64(n)*7 + hx.Seed())
 			changed := false
@@ -740,6 +796,123 @@ func clearRaces(out *hx.Out, movers, clearsPerMover, forced int) {
 	}
 }
 
+// pairLine is one forced-schedule run of two calls that each make a different mode normal.
+type pairLine struct {
+	Kind     string   `json:"kind"`
+	Case     int      `json:"case"`
+	Rep      int      `json:"rep"`
+	Init     string   `json:"init"` // "none" | "other": is another mode (c) normal beforehand
+	Ops      []opT    `json:"ops"`
+	APIs     []string `json:"apis"`
+	Errs     []string `json:"errs"`
+	Now      int      `json:"now"`
+	Arrivals int      `json:"arrivals"` // callers that reached the point between check and write
+	Pre      stateA   `json:"pre"`
+	Post     stateA   `json:"post"`
+	Panic    string   `json:"panic"`
+}
+
+type pairCase struct {
+	Init string `json:"init"`
+	Ops  []opT  `json:"ops"`
+}
+
+// normalPairs replays the cases printed by spec/ElectricConc.tla: modes a, b (not normal) and c
+// (normal iff init = "other"), two goroutines each making a different mode normal, parked between
+// check and write until both are there or the timeout passes (see rendezvous).
+func normalPairs(out *hx.Out, path string, reps int, timeout time.Duration) {
+	cases := hx.ReadCases[pairCase](path)
+	variants := [][]string{{"model", "model"}, {"server", "server"}, {"model", "server"}, {"server", "model"}}
+	for n, c := range cases {
+		for rep := 1; rep <= reps; rep++ {
+			apis := variants[(rep-1)%len(variants)]
+			hx.Current(map[string]any{"part": "normal pairs", "case": c, "apis": apis})
+			s := newSUT(int64(n)*31 + int64(rep) + hx.Seed())
+			s.clk.Advance(1)
+			for _, m := range []*traits.ElectricMode{{Id: "a"}, {Id: "b"}, {Id: "c", Normal: c.Init == "other"}} {
+				if err := s.m.AddMode(m); err != nil {
+					hx.Fatal("pairs setup: %v", err)
+				}
+			}
+			line := pairLine{Kind: "pair", Case: n + 1, Rep: rep, Init: c.Init, Ops: c.Ops, APIs: apis, Errs: []string{"", ""}, Now: s.clk.Ticks()}
+			line.Pre, _ = s.state("model", s.ids.toAbsOrSeen)
+			rv := newRendezvous(timeout)
+			s.updOpts = []resource.WriteOption{resource.InterceptBefore(func(_, _ proto.Message) { rv.arrive() })}
+			s.clk.meetAt(rv)
+			var wg sync.WaitGroup
+			var pmu sync.Mutex
+			for i := range c.Ops {
+				wg.Add(1)
+				go func() {
+					defer wg.Done()
+					var err error
+					p := hx.Catch(func() { err, _, _ = s.call(apis[i], c.Ops[i]) })
+					pmu.Lock()
+					line.Errs[i] = hx.Code(err)
+					if p != "" {
+						line.Errs[i], line.Panic = "Panic", p
+					}
+					pmu.Unlock()
+				}()
+			}
+			wg.Wait()
+			s.clk.meetAt(nil)
+			s.updOpts = nil
+			line.Arrivals = rv.arrivals()
+			line.Post, _ = s.state("model", s.ids.toAbsOrSeen)
+			out.Write(line)
+		}
+	}
+}
+
+// cnormalLine: the table a caller read right after its UpdateMode(normal = true) succeeded, while
+// other goroutines do the same on other modes (free running).
+type cnormalLine struct {
+	Kind  string  `json:"kind"`
+	Run   int     `json:"run"`
+	Round int     `json:"round"`
+	API   string  `json:"api"`
+	ID    string  `json:"id"`
+	Modes []modeA `json:"modes"`
+}
+
+// normalStress: three goroutines, each with its own mode, set normal = true (refused while another
+// mode is normal), read the table, set normal = false again.
+func normalStress(out *hx.Out, runs, iters int) {
+	for run := 1; run <= runs; run++ {
+		hx.Current(map[string]any{"part": "normal stress", "run": run})
+		s := newSUT(int64(run)*37 + hx.Seed())
+		s.clk.Advance(1)
+		ids := []string{"a", "b", "c"}
+		for _, id := range ids {
+			if err := s.m.AddMode(&traits.ElectricMode{Id: id}); err != nil {
+				hx.Fatal("stress setup: %v", err)
+			}
+		}
+		var wg sync.WaitGroup
+		for w, id := range ids {
+			wg.Add(1)
+			api := []string{"model", "server", "model"}[(w+run)%3]
+			go func() {
+				defer wg.Done()
+				for k := 1; k <= iters; k++ {
+					on := opT{Op: "Update", ID: id, Normal: true, Mask: "normal", Start: -1, Src: "lit"}
+					if err, _, _ := s.call(api, on); err != nil {
+						continue
+					}
+					out.Write(cnormalLine{Kind: "cnormal", Run: run, Round: k, API: api, ID: id, Modes: absModes(s.ids, s.m.Modes(), s.ids.toAbsOrSeen)})
+					off := on
+					off.Normal = false
+					if err, _, _ := s.call(api, off); err != nil {
+						hx.Fatal("taking the normal flag off %s: %v", id, err)
+					}
+				}
+			}()
+		}
+		wg.Wait()
+	}
+}
+
 func runConc() {
 	out := hx.NewOut(hx.Arg("-out", "obs.ndjson"))
 	defer out.Close()
@@ -938,6 +1111,10 @@ func runConc() {
 		cancel()
 	}
 	clearRaces(out, hx.ArgInt("-movers", 4), hx.ArgInt("-clears", 500), hx.ArgInt("-forced", 50))
+	if p := hx.Arg("-pairs", ""); p != "" {
+		normalPairs(out, p, hx.ArgInt("-reps", 2), time.Duration(hx.ArgInt("-meet-ms", 100))*time.Millisecond)
+	}
+	normalStress(out, hx.ArgInt("-stress", 4), hx.ArgInt("-stress-iters", 300))
 }
 
 func main() {
